@@ -232,7 +232,7 @@ Qed.
 
 (* ---------- the waits (C12) ---------- *)
 Fixpoint fires (stim : list stimulus) : nat :=
-  match stim with Fire _ :: r => Datatypes.S (fires r) | _ => O end.
+  match stim with Fire _ :: r => Datatypes.S (fires r) | _ :: r => fires r | [] => O end.
 Lemma remove_nth_length {A} (l : list A) : forall i x, nth_error l i = Some x -> length l = Datatypes.S (length (remove_nth i l)).
 Proof.
   induction l as [|p ps IH]; intros [|i] x H; cbn in *; try discriminate; [reflexivity|].
@@ -244,7 +244,8 @@ Lemma outer_select_timer stim : forall pending ctl rest c,
   exists used, stim = used ++ rest /\ (length pending <= fires used)%nat.
 Proof.
   induction stim as [|s r IH]; intros pending ctl rest c H Hne; cbn [outer_select] in H; [discriminate|].
-  destruct s as [i|src]; [|discriminate].
+  destruct s as [i|src|]; [|discriminate|].
+  2:{ destruct (IH pending ctl rest c H Hne) as (used & -> & Hl). exists (DropHandles :: used). split; [reflexivity|]. cbn [fires]. lia. }
   destruct (nth_error pending i) as [x|] eqn:En.
   - destruct (remove_nth i pending) as [|y ys] eqn:Er.
     + inversion H; subst. exists [Fire i]. split; [reflexivity|].
